@@ -198,6 +198,53 @@ def suite_ninja_dag(ctx, res, n):
         first.setdefault((h, "v"), r["values"])
 
 
+def vf_build(job):
+    """a 2-master variable build (two glyph-map / part-file / UFO chains that ninja may run concurrently)"""
+    root, vid, jobs = job
+    root = Path(root)
+    env = {"PYTHONHASHSEED": str(vid)}
+    if jobs:
+        env["PATH"] = str(ninja_shim(root / f"wvf{vid}", jobs)) + ":" + cli.BASE_ENV["PATH"]
+    rc, out = cli.nanoemoji(["--build_dir", root / f"build_vf_{vid}", root / "vf.toml"], root, env)
+    f = root / f"build_vf_{vid}" / "VF.ttf"
+    if rc != 0 or not f.exists():
+        return {"id": vid, "rc": rc, "tail": out[-400:], "jobs": jobs}
+    return {"id": vid, "rc": 0, "sha": cli.sha256(f), "jobs": jobs}
+
+
+def suite_vf(ctx, res):
+    root = common.scratch_dir("c08vf")
+    try:
+        for m, (dx, sc) in enumerate([(0, 1.0), (6, 1.3)]):
+            files = {}
+            for k in range(4):
+                a, w = 10 + dx + 5 * k, (28 - 4 * k) * sc
+                files[f"emoji_u{0x1F600 + k:x}.svg"] = (f'<svg xmlns="http://www.w3.org/2000/svg" viewBox="0 0 100 100">'
+                                                        f'<path d="M{a},{a} L{a + w},{a} L{a + w},{a + w} L{a},{a + w} Z" fill="#FF0000"/>'
+                                                        f'<path d="M{60 - 3 * k},{50 + dx} L{90 - 5 * k},{60} L{70},{90 - dx} Z" fill="#0000FF"/></svg>')
+            cli.write_svgs(root / ["regular", "bold"][m], files)
+        (root / "vf.toml").write_text('family = "VF"\noutput_file = "VF.ttf"\ncolor_format = "glyf_colr_1"\nreuse_tolerance = -1\n'
+                                      '[axis.wght]\nname = "Weight"\ndefault = 400\n'
+                                      '[master.regular]\nstyle_name = "Regular"\nsrcs = ["regular/*.svg"]\n[master.regular.position]\nwght = 400\n'
+                                      '[master.bold]\nstyle_name = "Bold"\nsrcs = ["bold/*.svg"]\n[master.bold.position]\nwght = 700\n')
+        jobs = [(str(root), 0, 1), (str(root), 1, 16), (str(root), 2, 16), (str(root), 3, 8), (str(root), 4, 16)]
+        with ThreadPoolExecutor(max_workers=5) as ex:
+            results = list(ex.map(vf_build, jobs))
+        base = results[0]
+        for r in results:
+            res.count(key=("vf", r["id"]), nontrivial=r["id"] != 0)
+            if r["rc"] != 0:
+                res.add_cex("a 2-master variable build fails under some ninja schedule", {"jobs": r["jobs"], "tail": r.get("tail")},
+                            {"site": "c08-vf-build", "jobs": r["jobs"]})
+                continue
+            res.stat("built:vf")
+            if base["rc"] == 0 and r["sha"] != base["sha"]:
+                res.add_cex("variable font bytes differ between ninja -j1 and a parallel schedule", {"jobs": r["jobs"], "sha": [base["sha"], r["sha"]]},
+                            {"site": "c08-vf-bytes", "jobs": r["jobs"]})
+    finally:
+        shutil.rmtree(root, ignore_errors=True)
+
+
 def run(ctx, res):
     nano.init()
     res.rule = ("one generated 4-source set (two source directories, a ZWJ sequence) + 2 fixed sources sharing an outline across glyphs with different fill and opacity x formats {glyf_colr_1, picosvg, glyf} (+cbdt, glyf_colr_0, untouchedsvg in "
@@ -205,6 +252,7 @@ def run(ctx, res):
                 "paths, absolute paths, build directory location; non-trivial = every variant other than the baseline")
     formats = ["glyf_colr_1", "picosvg", "glyf"] + (["cbdt", "glyf_colr_0", "untouchedsvg"] if ctx.thorough else [])
     suite_ninja_dag(ctx, res, ctx.budget(8, 120))
+    suite_vf(ctx, res)
     suite(ctx, res, formats)
 
 
